@@ -21,25 +21,25 @@ def gen(tier, seed):
     if tier != "quick":
         combos += [tuple(rnd.choice(S) for _ in range(4)) for _ in range(8)]
     for k, (un, us, up, uy) in enumerate(combos):
-        for (w, h, d) in ((2, 1, 1), (1, 3, 1)) if tier == "quick" else ((1, 1, 1), (2, 1, 1), (3, 1, 1), (2, 2, 1)):
+        for (w, h, d) in ((1, 1, 1), (2, 1, 1), (3, 1, 1), (2, 2, 1)):
             n = w * h * d
             args = ", ".join("e%d: int" % i for i in range(n))
-            emax = 2 if (n <= 2 or tier != "quick") else 1
+            emax = 2
             pre = " and ".join("0 <= e%d <= %d" % (i, emax) for i in range(n))
             add("default_grid_%d_%d%d%d" % (k, w, h, d), "c13-default-grid", "default_grid(%d, %d, %d, [%s], %r, %r, %r, %r)" % (w, h, d, ", ".join("e%d" % i for i in range(n)), un, us, up, uy),
                 ["pre: " + pre], "default state = density(env) x volume, default chemostats = flag(env), species-major, for EVERY environment map of a %dx%dx%d grid (units: network %s, species %s, space %s, system %s)" % (w, h, d, un, us, up, uy),
                 args, timeout=300)
         add("default_graph_%d" % k, "c13-default-graph", "default_graph([e0, e1, e2], %r, %r, %r, %r, %r)" % (un, us, up, rnd.choice(S) if tier != "quick" else "I", uy),
-            ["pre: 0 <= e0 <= 2 and 0 <= e1 <= 2 and 0 <= e2 <= 2" if tier != "quick" else "pre: 0 <= e0 <= 2 and 0 <= e1 <= 1 and e2 == 2 - e0"], "default state on a 3-node graph with per-node volumes in their own units, every environment map (units combination %d)" % k,
+            ["pre: 0 <= e0 <= 2 and 0 <= e1 <= 2 and 0 <= e2 <= 2"], "default state on a 3-node graph with per-node volumes in their own units, every environment map (units combination %d)" % k,
             "e0: int, e1: int, e2: int", timeout=300)
-    add("index_grid", "c13-index", "index_formula('grid', s, x, y, z)", ["pre: 0 <= s <= 3 and 0 <= x <= 2 and 0 <= y <= 1 and 0 <= z <= 1" if tier != "quick" else "pre: 1 <= s <= 2 and 0 <= x <= 2 and 0 <= y <= 1 and 0 <= z <= 1"],
+    add("index_grid", "c13-index", "index_formula('grid', s, x, y, z)", ["pre: 0 <= s <= 3 and 0 <= x <= 2 and 0 <= y <= 1 and 0 <= z <= 1"],
         "state index = species*ncells + (z*w*h + y*w + x) for species given by index / label / object and the cell by linear index / tuple / object (3x2x2)", "s: int, x: int, y: int, z: int", timeout=240)
     add("index_graph", "c13-index", "index_formula('graph', s, x, 0, 0)", ["pre: 0 <= s <= 3 and 0 <= x <= 3"], "state index = species*ncells + node on a graph", "s: int, x: int", timeout=120)
     for kind in ("grid", "graph"):
         for uv in ("A", "B", "G"):
-            add("touch_%s_%s" % (kind, uv), "c13-accessors", "accessors_touch_one_entry(%r, s, c, %r)" % (kind, uv), ["pre: 0 <= s <= 3 and 0 <= c <= 3" if tier != "quick" else "pre: 1 <= s <= 2 and 0 <= c <= 3"],
+            add("touch_%s_%s" % (kind, uv), "c13-accessors", "accessors_touch_one_entry(%r, s, c, %r)" % (kind, uv), ["pre: 0 <= s <= 3 and 0 <= c <= 3"],
                 "set_state / get_state / set_chemostat / get_chemostat read and write exactly entry species*ncells+cell, converting units (%s, value given in system %s)" % (kind, uv), "s: int, c: int", timeout=240)
-    add("regen", "c13-regenerate", "regenerate_reflects_edit(s, [e0, e1])", ["pre: 0 <= s <= 3 and 0 <= e0 <= 2 and 0 <= e1 <= 2" if tier != "quick" else "pre: 0 <= s <= 3 and 0 <= e0 <= 1 and e1 == 1"], "regenerating the defaults after editing a species reflects the edit", "s: int, e0: int, e1: int", timeout=240)
+    add("regen", "c13-regenerate", "regenerate_reflects_edit(s, [e0, e1])", ["pre: 0 <= s <= 3 and 0 <= e0 <= 2 and 0 <= e1 <= 2"], "regenerating the defaults after editing a species reflects the edit", "s: int, e0: int, e1: int", timeout=240)
     return "\n".join(L), conds
 
 
@@ -51,4 +51,4 @@ def run(rec):
         rec.encoded(fn)
     text, conds = gen(rec.tier, rec.seed)
     mod = pysym.write_module("hgen_C13", text)
-    pysym.run_conditions(rec, mod, conds, default_timeout=240)
+    pysym.run_auto(rec, mod, conds, default_timeout=240)
